@@ -6,15 +6,18 @@ import (
 	"os"
 	"sort"
 	"strings"
+	"testing"
 )
 
 // propDef binds a property id to its workload generator, oracle and the rule
 // that says which runs count as non-trivial for the evidence.
 type propDef struct {
-	id   string
-	gen  func(seed uint64, thorough bool) *Plan
-	chk  func(*Plan) Checker
-	rule string
+	id  string
+	gen func(seed uint64, thorough bool) *Plan
+	chk func(*Plan) Checker
+	// runner, when set, replaces RunPlan(plan, tape, chk) (composite runs)
+	runner func(t *testing.T, plan *Plan, tape *Tape, keepLog bool) *RunResult
+	rule   string
 	// nontrivial decides, from the finished run, whether it counts
 	nontrivial func(res *RunResult) bool
 	// probes that must be non-zero over a whole batch, else the check is vacuous (exit 2)
@@ -130,3 +133,11 @@ func sortedProbeNames(m map[string]int) []string {
 }
 
 var _ = strings.ToLower
+
+// runProp executes one run of a property (plain or composite).
+func runProp(t *testing.T, pd *propDef, plan *Plan, tape *Tape, keepLog bool) *RunResult {
+	if pd.runner != nil {
+		return pd.runner(t, plan, tape, keepLog)
+	}
+	return RunPlan(t, plan, tape, pd.chk, keepLog)
+}
